@@ -1,4 +1,5 @@
 import ALock.Props.C01
+import ALock.Lemmas.Fifo
 
 /-!
 # C13 — Mutex eventual fairness: a starved waiter closes the fast path
@@ -11,7 +12,12 @@ started after that moment acquires the mutex before the starved one does.
 
 Part (a) — no barging — is proved here for every history of the poll-granular model (the timing
 branch may fire at any of its evaluation points: `fire` is an argument of every `poll`).
-Part (b) — FIFO among later arrivals — is `C13_fifo` in `Props/C13Fifo.lean`.
+Part (b) — FIFO among later arrivals — is `C13_fifo` below: with serialised (atomic) polls, from the
+moment an operation is starved until it acquires or is dropped, no lock operation started later
+completes.  It rests on the queue-shape invariant `QI` (`Lemmas/Fifo.lean`): only the head of
+`lock_ops` is ever notified, and while somebody is starved an outstanding notification implies the
+mutex is unlocked — so a starved operation never re-queues, later arrivals stay behind it, and a
+notification never reaches them first.
 -/
 
 namespace ALock.Mutex
@@ -77,5 +83,31 @@ example :
     (s.futs.any fun fu => fu.id == 1 && fu.l.starved && !fu.l.done) = true ∧ s.c.st = 2 ∧
     (step s (.tryLock 3 false)).2 = .none ∧
     (step (next s (.dropFut 1)) (.tryLock 3 false)).2 = .some := by decide
+
+/-- **C13 (b): FIFO among later arrivals.** Let `f` be starved after `ops0`, and let it stay starved
+(neither completed nor dropped) through every prefix of `ops1` (`Trace`). Then every lock operation
+alive at the end that was not already alive when `f` became starved — `e1` is the set of those
+early arrivals, minus the ones dropped since (their ids may be reused) — has not acquired the
+mutex. Together with `C13_no_barging` (`try_lock`): nothing that starts after that moment gets the
+mutex before `f` does. -/
+theorem C13_fifo (ops0 ops1 : List Op) (f : Nat) (s1 : Sys) (e1 : List Nat)
+    (h0 : StarvedLive (run {} ops0) f)
+    (ht : Trace f (run {} ops0) ((run {} ops0).futs.map (·.id)) ops1 s1 e1) :
+    ∀ fu ∈ s1.futs, fu.id ∉ e1 → fu.l.done = false := by
+  have hi := reachable_inv ops0
+  have hq := reachable_qi ops0
+  have hfi := trace_fi ht hi hq h0 (fi_init _ hi f h0)
+  exact fun fu hfu hne => (hfi.late fu hfu hne).1
+
+/-- non-vacuity: `0` is starved behind a guard; `1` and `2` arrive later; the guard is dropped; the
+later arrivals are polled first and stay pending; `0` acquires -/
+example :
+    let ops0 : List Op := [.tryLock 9 false, .start 0 false, .poll 0 0 false, .dropGuard 9,
+      .tryLock 8 false, .poll 0 0 true]
+    let ops1 : List Op := [.start 1 false, .poll 1 4 false, .start 2 true, .poll 2 8 false,
+      .dropGuard 8, .poll 1 4 false, .poll 2 8 false]
+    ((run {} ops0).futs.map fun fu => (fu.id, fu.l.starved, fu.l.done)) = [(0, true, false)] ∧
+    ((run {} (ops0 ++ ops1)).futs.map fun fu => (fu.id, fu.l.done)) = [(2, false), (1, false), (0, false)] ∧
+    (step (run {} (ops0 ++ ops1)) (.poll 0 0 false)).2 = .ready := by decide
 
 end ALock.Mutex
